@@ -178,20 +178,19 @@ func (t *trieM) Find(root util.Uint256, prefix []byte) ([]storage.KeyValue, erro
 // ---- stateroot.Module -----------------------------------------------------------------------
 
 type modM struct {
-	m                          string
-	ps                         storage.Store
-	copies                     bool // the persistent layer hands out copies (no slice aliasing with what was put)
-	leak                       string
-	leakSuffix, leakDiskSuffix bool   // the only differences are rewritten 5-byte suffixes (flag + counter) of existing records
-	tick                       bool   // a persist tick of the node falls between AddMPTBatch and the (missing) commit of a dropped block
-	tickObs                    string // what that persist found waiting in the MemCachedStore ("" = no tick happened)
-	leakDisk                   string // the persistent layer after that tick against everything committed before the block
-	cleanup                    func()
-	ms                         *storage.MemCachedStore
-	mod                        *stateroot.Module
-	height                     uint32
-	any                        bool
-	inMemory                   bool // no restart since the start of the case: every node of the live trie is a Go object
+	m        string
+	ps       storage.Store
+	copies   bool // the persistent layer hands out copies (no slice aliasing with what was put)
+	leak     string
+	tick     bool   // a persist tick of the node falls between AddMPTBatch and the (missing) commit of a dropped block
+	tickObs  string // what that persist found waiting in the MemCachedStore ("" = no tick happened)
+	leakDisk string // the persistent layer after that tick against everything committed before the block
+	cleanup  func()
+	ms       *storage.MemCachedStore
+	mod      *stateroot.Module
+	height   uint32
+	any      bool
+	inMemory bool // no restart since the start of the case: every node of the live trie is a Go object
 }
 
 func newModM(m string) *modM { return newModMOn(m, "mem") }
